@@ -66,6 +66,12 @@ PATTERNS = [
     ("(k: {1, 2})", "typed:enum", lambda v: is_int(v) and v in (1, 2)),
     ("(r: 1..2)", "typed:interval", lambda v: is_int(v) and 1 <= v <= 2),
     ("(w: 0..3)", "typed:interval", lambda v: is_int(v) and 0 <= v <= 3),
+    # the three open forms, with a bound that is a value of the scrutinee windows (so that the end point's membership matters)
+    ("(lo: 0<..3)", "typed:interval", lambda v: is_int(v) and 0 < v <= 3),
+    ("(ro: 0..<3)", "typed:interval", lambda v: is_int(v) and 0 <= v < 3),
+    ("(op: 0<..<3)", "typed:interval", lambda v: is_int(v) and 0 < v < 3),
+    ("(oq: 0<..<4)", "typed:interval", lambda v: is_int(v) and 0 < v < 4),
+    ("(lp: 1<..3)", "typed:interval", lambda v: is_int(v) and 1 < v <= 3),
     ("(u: Int or Str)", "typed:union", lambda v: is_int(v) or isinstance(v, str)),
     ('(q: {"a", "b"})', "typed:enum-str", lambda v: v in ("a", "b")),
     ("_", "wildcard", lambda v: True),
@@ -131,8 +137,8 @@ RELEVANT = {
     "Nat": ["0", "1", "(n: Nat)", "(w: 0..3)", "(i: Int)", "v"],
     "Bool": ["True", "False", "(b: Bool)", "1", "0", "_"],
     "Str": ['"a"', '"b"', "(s: Str)", '(q: {"a", "b"})', "v", "0"],
-    "{1, 2, 3}": ["1", "2", "3", "(k: {1, 2})", "(r: 1..2)", "(n: Nat)"],
-    "0..3": ["0", "1", "2", "3", "(r: 1..2)", "(w: 0..3)"],
+    "{1, 2, 3}": ["1", "2", "3", "(k: {1, 2})", "(r: 1..2)", "(n: Nat)", "(lo: 0<..3)", "(ro: 0..<3)", "(op: 0<..<3)", "(oq: 0<..<4)", "(lp: 1<..3)"],
+    "0..3": ["0", "1", "2", "3", "(r: 1..2)", "(w: 0..3)", "(lo: 0<..3)", "(ro: 0..<3)", "(op: 0<..<3)", "(oq: 0<..<4)", "(lp: 1<..3)"],
     "Int or Str": ["(i: Int)", "(s: Str)", "(n: Nat)", "(u: Int or Str)", "0", '"a"'],
     '{"a", "b"}': ['"a"', '"b"', "(s: Str)", '(q: {"a", "b"})', "_", "1"],
 }
@@ -191,11 +197,14 @@ def space(tier):
         types.update(TYPES_THOROUGH)
     for ty, window in types.items():
         seen = set()
-        lists = [(a,) for a in pats] + list(itertools.product(pats, repeat=2))
         if quick:
-            lists += list(itertools.product(RELEVANT[ty], repeat=3))
+            # one program costs ~0.5 CPU-s (compile + several calls): quick keeps every single arm, every pair with at least
+            # one arm from the patterns most relevant to the type (RELEVANT), and every triple over the first four of those
+            rel = set(RELEVANT[ty])
+            lists = [(a,) for a in pats] + [ab for ab in itertools.product(pats, repeat=2) if rel & set(ab)]
+            lists += list(itertools.product(RELEVANT[ty][:4], repeat=3))
         else:
-            lists += list(itertools.product(pats, repeat=3))
+            lists = [(a,) for a in pats] + list(itertools.product(pats, repeat=2)) + list(itertools.product(pats, repeat=3))
         for arms in lists:
             if arms in seen:
                 continue
